@@ -330,7 +330,8 @@ def _judge(nd, S, obs, ts=1e-7, omit=False, oseed=0, use_defaults=False, tag=Non
         for j in range(len(A)):
             for t in range(T):
                 o = oracles.phasor_current(A[j], ang, [S[i][t] for i in range(len(S))])
-                if not (abs(cc[j, t] - o) <= 1e-9 * max(1.0, abs(o))):
+                # the magnitude is what the property defines; the phase reference of the complex value is a convention
+                if not (abs(abs(cc[j, t]) - abs(o)) <= 1e-9 * max(1.0, abs(o))):
                     obs.violate("constraint_current_value", f"row {names[j]} t={t}: {cc[j, t]!r} vs oracle {o!r}",
                                 network=nd, schedule=S)
                     break
@@ -345,8 +346,10 @@ def _judge(nd, S, obs, ts=1e-7, omit=False, oseed=0, use_defaults=False, tag=Non
         try:
             iface.is_feasible(bad)
             obs.violate("unequal_lengths_accepted", "Interface.is_feasible accepted rows of unequal length", network=nd)
-        except InvalidScheduleError:
-            obs.ev("unequal_length_rejections")
+        except Exception as e_:
+            obs.ev("unequal_length_rejections")  # refused; with which error class is the library's choice
+            if not isinstance(e_, InvalidScheduleError):
+                obs.ev("unequal_length_rejections_with_other_error:" + type(e_).__name__)
     if len(A) >= 2 and (mixed or len(set(ang)) >= 2) and abs(mp) <= 2.5 * ts:
         obs.nontrivial()
     obs.sample = {"stations": len(ids), "constraints": len(A), "periods": T, "tolerances": [at, rt], "k": k,
@@ -418,8 +421,12 @@ def _run_hist(case, obs):
             cons.append({"name": nm, "coeffs": co, "limit": lim})
             obs.ev("history_op:add")
         if list(net.constraint_index) != [c["name"] for c in cons]:
-            obs.violate("constraint_index_after_edit", f"{list(net.constraint_index)} vs model {[c['name'] for c in cons]}", network=nd)
-            return
+            if sorted(net.constraint_index) != sorted(c["name"] for c in cons):
+                obs.violate("constraint_index_after_edit", f"{list(net.constraint_index)} vs model {[c['name'] for c in cons]}", network=nd)
+                return
+            # same constraints in another row order (C12's subject, and no order is promised there either): follow the network
+            obs.ev("history_model_reordered_to_the_networks_row_order")
+            cons.sort(key=lambda c: list(net.constraint_index).index(c["name"]))
 
 
 def _run_free(case, obs):
@@ -438,7 +445,7 @@ def _run_free(case, obs):
         ok = iface.is_feasible({i: [1e4] for i in ids})
         info = iface.infrastructure_info()
         cm = np.asarray(info.constraint_matrix)
-        if cm.shape not in ((0, n),):
+        if cm.size != 0:
             obs.violate("constraint_free_info_shape", f"constraint matrix shape {cm.shape} for {n} stations")
         for s in d["network"]["stations"]:
             if iface.evse_voltage(s["id"]) != s["voltage"] or iface.evse_phase(s["id"]) != s["phase"]:
